@@ -11,9 +11,16 @@
      StorageRouting: within 2*massBalanceLimit = 2e-3 m3 per cut on storage (each of the two runs solves its
        step to |mass balance| < massBalanceLimit = 1e-3 m3, so two accepted solutions are at most 2e-3 m3 apart),
        the same volume divided by DeltaT on outflow, + 1e-9 relative;
-     Sacramento with side != 0: 1e-9 relative (the two lower-zone free-water states are stored divided by
-       (1+side) and multiplied back: one rounding per cut); differences beyond that are the unit-hydrograph
-       buffer (known finding) when uh2+..+uh5 > 0 and a VIOLATION when the unit hydrograph has a single ordinate.
+     Sacramento with side != 0: the two lower-zone free-water states are stored divided by (1+side) and multiplied
+       back by the next call: one rounding per cut.  Accepted when within 1e-9 relative; otherwise a MEASURED
+       envelope decides (the model has ill-conditioned points, e.g. perc ~ defr^rexp at defr ~ 0, that amplify
+       one ulp far beyond any fixed tolerance): at every cut the rest of the split run is re-run on the
+       IMPLEMENTATION with the carried lzfpc / lzfsc moved by -2..+2 ulp (math.nextafter; exactly the values a
+       rounding of x/(1+side)*(1+side) can produce), and the whole run must lie, at every time step and in every
+       final state, within [split - sum over cuts of the largest downward deviation, split + sum of the largest
+       upward deviation] (for one cut: min..max over the 25 runs), widened by 1e-12 relative.  Such runs are counted
+       as ill_conditioned_accepted with the measured amplification.  Differences outside the envelope are the
+       unit-hydrograph buffer (known finding) when uh2+..+uh5 > 0 and a VIOLATION for a single ordinate.
    Known, unrepaired defects (known_findings.txt) are reported as KNOWN-FINDING only for that model + trigger and
    only when the faithful Coq kernel shows the same mismatch on the same case:
      key sacramento-uh-buffer  (Sacramento, uh2+uh3+uh4+uh5 > 0)
@@ -90,6 +97,118 @@ def oracle_diff(cs, w, r, ncuts):
     return d, 'fail'
 
 
+def _ulps(x, k):
+    """x moved by k units in the last place (zero stays zero: 0/(1+side)*(1+side) is exactly 0)"""
+    if x == 0.0 or x != x or math.isinf(x):
+        return x
+    for _ in range(abs(k)):
+        x = math.nextafter(x, math.inf if k > 0 else -math.inf)
+    return x
+
+
+def sac_envelope(owrun, cs, cuts, w, r):
+    """Sacramento, side != 0, whole result w and split result r (cut set cuts) differ by more than 1e-9:
+    measure on the implementation what one rounding of the carried lzfpc / lzfsc (state slots 3, 4) can do.
+    -> (None, info) when w lies inside the measured envelope around r, else (description, info)"""
+    n = len(cs['inputs'][0])
+    nout = len(r[1])
+    up = [[0.0] * n for _ in range(nout)]
+    dn = [[0.0] * n for _ in range(nout)]
+    sup = [0.0] * len(r[2])
+    sdn = [0.0] * len(r[2])
+    nruns = 0
+    for j, cj in enumerate(cuts):
+        head = dict(cs, inputs=[row[:cj] for row in cs['inputs']])
+        if j == 0:
+            res = parse_kresult(run_filtered(owrun, [kline(head)], 'CRASH', env=GOENV)[0])
+        else:
+            rs = split_results(run_filtered(owrun, [split_line(head, 'same', [cuts[:j]])], 'CRASH', env=GOENV)[0])
+            res = rs[1] if rs else ('CRASH', None, None)
+        if res[0] != 'OK':
+            return 'envelope: the run up to the cut at %d failed' % cj, {}
+        carried = res[2]
+        rest = [c - cj for c in cuts[j + 1:]]
+        variants = [(0, 0)] + [(a, b) for a in (-2, -1, 0, 1, 2) for b in (-2, -1, 0, 1, 2) if (a, b) != (0, 0)]
+        lines = []
+        for a, b in variants:
+            st = list(carried)
+            st[3], st[4] = _ulps(st[3], a), _ulps(st[4], b)
+            tail = dict(cs, states=st, inputs=[row[cj:] for row in cs['inputs']])
+            lines.append(split_line(tail, 'same', [rest]) if rest else kline(tail))
+        outs = run_filtered(owrun, lines, 'CRASH', env=GOENV)
+        runs = []
+        for l in outs:
+            if rest:
+                rs = split_results(l)
+                runs.append(rs[1] if rs else ('CRASH', None, None))
+            else:
+                runs.append(parse_kresult(l))
+        nruns += len(runs)
+        base = runs[0]
+        if base[0] != 'OK':
+            return 'envelope: the unperturbed continuation from the cut at %d failed' % cj, {}
+        cu = [[0.0] * (n - cj) for _ in range(nout)]
+        cd = [[0.0] * (n - cj) for _ in range(nout)]
+        su = [0.0] * len(base[2])
+        sd = [0.0] * len(base[2])
+        for pr in runs[1:]:
+            if pr[0] != 'OK':
+                continue
+            for o in range(nout):
+                for t, (x, y) in enumerate(zip(pr[1][o], base[1][o])):
+                    dlt = x - y
+                    if dlt > cu[o][t]:
+                        cu[o][t] = dlt
+                    elif -dlt > cd[o][t]:
+                        cd[o][t] = -dlt
+            for k, (x, y) in enumerate(zip(pr[2], base[2])):
+                dlt = x - y
+                if dlt > su[k]:
+                    su[k] = dlt
+                elif -dlt > sd[k]:
+                    sd[k] = -dlt
+        for o in range(nout):
+            for t in range(n - cj):
+                up[o][cj + t] += cu[o][t]
+                dn[o][cj + t] += cd[o][t]
+        for k in range(len(sup)):
+            sup[k] += su[k]
+            sdn[k] += sd[k]
+    worst_rel, worst_env, bad = 0.0, 0.0, None
+    def judge(what, a, b, lo, hi):
+        nonlocal worst_rel, worst_env, bad
+        if not (math.isfinite(a) and math.isfinite(b)):
+            if not (a != a and b != b) and a != b and bad is None:
+                bad = '%s whole=%r split=%r (not finite)' % (what, a, b)
+            return
+        sc = max(abs(a), abs(b))
+        if sc > 0:
+            worst_rel = max(worst_rel, abs(a - b) / sc)
+            worst_env = max(worst_env, max(lo, hi) / sc)
+        tol = 1e-12 * sc
+        if not (b - lo - tol <= a <= b + hi + tol) and bad is None:
+            bad = '%s whole=%r split=%r outside the measured envelope [split-%g, split+%g]' % (what, a, b, lo, hi)
+    for o in range(nout):
+        for t in range(n):
+            judge('output %d t=%d' % (o, t), w[1][o][t], r[1][o][t], dn[o][t], up[o][t])
+    for k in range(len(sup)):
+        judge('state %d' % k, w[2][k], r[2][k], sdn[k], sup[k])
+    info = {'perturbed_runs': nruns, 'max_rel_whole_vs_split': worst_rel, 'max_rel_envelope_halfwidth': worst_env,
+            'amplification_of_one_ulp': worst_rel / 2.220446049250313e-16}
+    return bad, info
+
+
+def judge_split(owrun, cs, cuts, w, r):
+    """the oracle for one split run -> (None | description, class, info); class: exact / tolerance / envelope / fail"""
+    d, cls = oracle_diff(cs, w, r, len(cuts))
+    if d is None or cs['model'] != 'Sacramento' or cs['params'][11] == 0.0 or w[0] != 'OK' or r[0] != 'OK':
+        return d, cls, None
+    d2, info = sac_envelope(owrun, cs, cuts, w, r)
+    if d2 is None:
+        return None, 'envelope', info
+    return d + ' ; ' + d2, 'fail', info
+
+
 def evaluate(c, cases, cuts, lines, mlines, mcuts, impl, mod, stats, tag):
     """judge one batch; returns the whole-run final states per case (None when the run failed)"""
     finals = []
@@ -117,18 +236,29 @@ def evaluate(c, cases, cuts, lines, mlines, mcuts, impl, mod, stats, tag):
             c.count((m, cs['params'], cs['states'], cs['inputs'], ks[j]), nontrivial=nt)
             st['split_runs'] += 1
             d, cls = oracle_diff(cs, w, r, len(ks[j]))
-            if d is None:
-                st['bit_identical' if cls == 'exact' else 'within_tolerance'] += 1
-                continue
-            key = finding_key(cs)
+            info = None
+            key = finding_key(cs) if d is not None else None
             if key is not None:
-                # the faithful model must show the same mismatch on this cut (when it was run on the model side)
+                # known finding only when the faithful model shows the same mismatch on this cut (when it was run there)
                 jm = mcuts[i].index(ks[j]) if ks[j] in mcuts[i] else None
                 if rm is not None and jm is not None and rm[0][0] == 'OK' and \
                         oracle_diff(cs, rm[0], rm[1 + jm], len(ks[j]))[0] is None:
                     key = None
+            if d is not None and key is None:
+                # not (confirmed as) the known finding: Sacramento with side != 0 gets the measured envelope
+                d, cls, info = judge_split(CTX['owrun'], cs, ks[j], w, r)
+            if d is None:
+                st['bit_identical' if cls == 'exact' else 'within_tolerance'] += 1
+                if cls == 'envelope':
+                    st['ill_conditioned_accepted'] = st.get('ill_conditioned_accepted', 0) + 1
+                    st['ill_conditioned_max_amplification_of_one_ulp'] = max(
+                        st.get('ill_conditioned_max_amplification_of_one_ulp', 0.0), info['amplification_of_one_ulp'])
+                    st['ill_conditioned_max_rel_diff'] = max(st.get('ill_conditioned_max_rel_diff', 0.0),
+                                                             info['max_rel_whole_vs_split'])
+                    st['ill_conditioned_perturbed_runs'] = st.get('ill_conditioned_perturbed_runs', 0) + info['perturbed_runs']
+                continue
             obj = dict(desc, kind='split-mismatch', cuts=ks[j], difference=d, whole_final_states=w[2],
-                       split_final_states=r[2] if r[0] == 'OK' else None)
+                       split_final_states=r[2] if r[0] == 'OK' else None, envelope=info)
             if c.violation('split_%s_%s_%d_%d.json' % (tag, m, i, j), obj, key=key):
                 pass
             else:
@@ -145,7 +275,7 @@ def evaluate(c, cases, cuts, lines, mlines, mcuts, impl, mod, stats, tag):
                 d2 = rr_conditioned(CTX['drv'], cs, lambda pc: split_line(pc, 'same', mcuts[i]), split_results,
                                     [p[0] for p in pairs], [p[1] for p in pairs])
                 if d2 is None:
-                    st['ill_conditioned_accepted'] = st.get('ill_conditioned_accepted', 0) + 1
+                    st['model_vs_code_ill_conditioned_accepted'] = st.get('model_vs_code_ill_conditioned_accepted', 0) + 1
                 else:
                     c.corr_broken.append({'model': m, 'diff': d, 'conditioned': d2, 'params': cs['params'], 'line': mlines[i][:3000]})
                 break
@@ -166,14 +296,33 @@ def replay(path):
         print('implementation:', res[:200])
         sys.exit(1)
     cs = mkcase(d['model'], d['params'], d['states'], d['inputs'], **d.get('meta', {}))
-    bad = 0
+    if d['model'] == 'StorageRouting':
+        cs['meta']['dt'] = d['params'][5]
+    # the cut sets are in the recorded line
+    toks = d['split_line'].split()
+    k = toks.index('CUTSETS')
+    ncs, pos, allcuts = int(toks[k + 1]), k + 2, []
+    for _ in range(ncs):
+        m = int(toks[pos])
+        allcuts.append([int(x) for x in toks[pos + 1:pos + 1 + m]])
+        pos += 1 + m
+    bad = known = bits = 0
     for j, r in enumerate(rs[1:]):
-        dd = kresults_agree(rs[0], r)
+        if kresults_agree(rs[0], r):
+            bits += 1
+        dd, cls, info = judge_split(owrun, cs, allcuts[j], rs[0], r)
         if dd:
-            bad += 1
-            if bad <= 5:
-                print('cut set %d: %s' % (j, dd.replace('impl=', 'whole=').replace('model=', 'split=')))
-    print('%d of %d split runs differ from the whole run (bit comparison)' % (bad, len(rs) - 1))
+            if finding_key(cs):
+                known += 1
+            else:
+                bad += 1
+            if bad + known <= 5:
+                print('cut set %s: %s%s' % (allcuts[j], dd.replace('impl=', 'whole=').replace('model=', 'split='),
+                                            '   [known finding %s]' % finding_key(cs) if finding_key(cs) else ''))
+        elif cls == 'envelope':
+            print('cut set %s: accepted by the measured envelope (one ulp amplified %.3g times)' % (allcuts[j], info['amplification_of_one_ulp']))
+    print('%d of %d split runs differ bitwise from the whole run; %d fail the oracle, %d more are the known finding'
+          % (bits, len(rs) - 1, bad, known))
     sys.exit(1 if bad else 0)
 
 
@@ -195,6 +344,7 @@ def main():
         c.violation('build_broken.json', {'kind': 'go-build-failed', 'what': e.what, 'output_tail': e.output[-3000:]}, no_input=True)
         c.cov['rule'] = 'the Go harness did not build against /repo'
         c.finish()
+    CTX['owrun'] = owrun
     g = Gen(rng, N, owrun)
     per_model = 24 if quick else 200
     nmulti = 6 if quick else 12
@@ -252,8 +402,12 @@ def main():
                         'storage_routing_tolerance_m3_per_cut': 2 * LIMIT,
                         'known_finding_split_runs': known_run, 'exhaustive': False,
                         'oracle': 'bit-identical outputs and final states (StorageRouting: 2*massBalanceLimit per cut; Sacramento '
-                                  'with side != 0: 1e-9 relative)'},
-             assumptions=['theorems hold for every Arith instance unless they name RArith; the float witnesses use a stub libm that is '
+                                  'with side != 0: 1e-9 relative, else the envelope measured on the implementation by moving the '
+                                  'carried lzfpc/lzfsc by -2..+2 ulp at every cut: ill_conditioned_accepted)'},
+             assumptions=['Sacramento with side != 0: the rounding of lzfpc/lzfsc at a cut is "floating-point round-off" in the sense of the '
+                          'property even where the model amplifies it (perc ~ defr^rexp near a full lower zone); such runs are accepted only '
+                          'inside the envelope measured on the implementation (+-2 ulp of the two carried states), never by a wider constant',
+                          'theorems hold for every Arith instance unless they name RArith; the float witnesses use a stub libm that is '
                           'never called where it differs from the real functions',
                           'model-vs-code comparison uses the tolerance of the model\'s own check (bit-exact for Muskingum, Lag, Storage and '
                           'the exact C12 kernels; 1e-9 relative where pow/exp/tanh are involved; StorageRouting additionally the solver tolerance)',
